@@ -75,6 +75,68 @@ R23E_SCOPE = (
 )
 
 
+def _r23f(chk, repo) -> None:
+    """`"end_column": violation.get("end_line_pos", start_line)`: the fallback of a column must be a column."""
+    n = 0
+    for rel in ("src/sqlfluff/cli/commands.py", "src/sqlfluff/cli/formatters.py", "src/sqlfluff/api/simple.py"):
+        m = repo.mod(rel)
+        for q, f in m.functions():
+            dicts = [d for d in ast.walk(f) if isinstance(d, ast.Dict) and any(isinstance(k, ast.Constant) and isinstance(k.value, str) and ("column" in k.value.lower() or k.value.lower().endswith("line") or "_line" in k.value.lower() or "line_" in k.value.lower()) for k in d.keys if k is not None)]
+            subs = [st for st in ast.walk(f) if isinstance(st, ast.Assign) and len(st.targets) == 1 and isinstance(st.targets[0], ast.Subscript) and isinstance(st.targets[0].slice, ast.Constant) and isinstance(st.targets[0].slice.value, str)]
+            if not dicts and not subs:
+                continue
+            cfg = cfg_of(f)
+
+            def kinds(e, at, depth=0) -> Set[str]:
+                """{'line', 'col'} kinds of the violation fields a value is read from."""
+                out: Set[str] = set()
+                if depth > 4:
+                    return out
+                for x in ast.walk(e):
+                    if isinstance(x, ast.Constant) and isinstance(x.value, str):
+                        v = x.value.lower()
+                        if v.endswith("line_no") or v in ("line", "startline", "endline"):
+                            out.add("line")
+                        if v.endswith("line_pos") or v in ("column", "col"):
+                            out.add("col")
+                    if isinstance(x, ast.Attribute):
+                        if x.attr in ("line_no",):
+                            out.add("line")
+                        if x.attr in ("line_pos",):
+                            out.add("col")
+                    if isinstance(x, ast.Name) and isinstance(x.ctx, ast.Load):
+                        for o in origins(cfg, x, at):
+                            if o.kind == "expr" and o.expr is not e:
+                                out |= kinds(o.expr, o.stmt, depth + 1)
+                return out
+
+            pairs = []
+            for d in dicts:
+                st = cfg.stmt_of(d)
+                for k, v in zip(d.keys, d.values):
+                    if k is not None and isinstance(k, ast.Constant) and isinstance(k.value, str):
+                        pairs.append((k.value, v, st, d))
+            for st in subs:
+                pairs.append((st.targets[0].slice.value, st.value, st, st))
+            for key, v, st, node in pairs:
+                kl = key.lower()
+                want = "col" if ("column" in kl or kl.endswith("_pos")) else ("line" if (kl.endswith("line") or kl.endswith("line_no")) else None)
+                if want is None or st is None:
+                    continue
+                got = kinds(v, st)
+                if not got:
+                    continue
+                n += 1
+                chk.require(
+                    got == {want}, "R23f", v,
+                    f"{q}: the field {key!r} is fed from {'a column' if 'col' in got and want == 'line' else 'a line number' if want == 'col' and got == {'line'} else 'both a line number and a column'} "
+                    f"({short(v, 60)}): for a violation that takes the fallback the reported {'column' if want == 'col' else 'line'} is the other coordinate",
+                    detail=f"{q}: record field {key} is a {'column' if want == 'col' else 'line'}",
+                )
+    chk.count("R23f.line_column_fields", n)
+    chk.floor("R23f.line_column_fields", 6)
+
+
 def _r23e(chk, repo) -> None:
     """Optional fields (``end_line_no`` / ``end_line_pos`` exist only for some violations) written into a
     scratch mapping that lives across iterations stay there for the next violation that lacks them."""
@@ -152,6 +214,8 @@ def run(chk) -> None:
     chk.rule("RQ-space", "no position computation in the eight position-handling modules uses a rendered-space offset/slice/text where a source-space one is required or vice versa, nor a line where a column is required (kind inference from the declared slice fields)")
     chk.rule("R23a", "a violation's line/column are components 0/1 of the marker's source_position(), which converts the START of the marker's SOURCE slice with source=True; error subclasses pass the marker of the segment they store")
     chk.rule("R23b", "serialised offsets and line/column come from the same end of the same slice through one converter call; fix serialisation copies line, column and offset together; extra entries come from the stored segment's marker")
+    chk.rule("R23f", "in every record a CLI / API builder writes, a field named *line* is fed from a `*line_no` field (or a line variable) and a field named *column* / *pos* from a `*line_pos` field: fallbacks included")
+    _r23f(chk, repo)
     chk.rule("R23e", "a record built per violation does not inherit position fields from the previous one: in the output builders no mapping created outside a loop has keys stored under a condition inside the loop while the whole mapping is copied / embedded inside that loop, unless it is emptied every iteration")
     _r23e(chk, repo)
     sk = SpaceKinds(repo)
@@ -808,6 +872,12 @@ LEXER = "src/sqlfluff/core/parser/lexer.py"
 LFILE = "src/sqlfluff/core/linter/linted_file.py"
 
 VARIANTS = [
+    Variant(
+        "annotation-end-column-falls-back-to-the-line", "src/sqlfluff/cli/commands.py",
+        '                            "end_line_pos", violation["start_line_pos"]\n',
+        '                            "end_line_pos", violation["start_line_no"]\n',
+        "R23f", "lint", "seeded C23-5 (same effect): a templating error gets an annotation that ends before it starts",
+    ),
     # ---- behaviour-preserving edits: must stay quiet ---------------------------------------
     Variant(
         "quiet-source-position-through-locals", MARKERS,
